@@ -676,7 +676,9 @@ pub fn abstract_obs(sc: &Scenario, out: &Outcome) -> serde_json::Value {
                 "prog": p,
                 "login_ok": nz > 0,
                 "n_z": nz.saturating_sub(1),
-                "admin_err": msgs.iter().any(|(_, m)| is_admin_err(m)),
+                // under SIGTERM the real process dies while its client tasks may or may not get to write the
+                // administrator-command error first (both were observed on the binary): not compared
+                "admin_err": if sc.meta["signal"].as_str().unwrap_or("").contains("TERM") { serde_json::Value::Null } else { serde_json::json!(msgs.iter().any(|(_, m)| is_admin_err(m))) },
                 // a statement sent in the very instant of the signal may go either way in real time
                 "judge": p != "idle-then-q",
             })
